@@ -13,6 +13,8 @@ Decided (structure of conf.c):
   I1  no use of an uninitialised local in conf.c (clang's CFG-based analyses)
   P5  no call passes a NULL constant to a parameter its callee ASSERT-guards (the <argv> push must be accepted)
   P6  a function that takes a new table entry into use stores every field of it (no stale flags from the slot's previous user)
+  P10 after spiftool_chomp() of the line every CFG path to a handler call has tested the first byte against '#' and NUL
+      (indented comments and blank-only lines are delivered to nobody); undecided when a unit-local classifier is used
 Not decided: exactly-once in-order delivery, trimming, include ordering."""
 from .. import facts, expr as X, confrules as R
 from ..report import Check
@@ -46,6 +48,8 @@ def run(tier="quick"):
     chk.count("line_discard_sites", R.check_discarded_lines(chk, u, "P7"), floor=1)
     chk.rule("P9", "a stream the parser opens itself is closed, returned or handed to the file stack on every path")
     chk.count("streams_opened_into_locals", R.check_stream_leaks(chk, prog, u, "P9"), floor=1)
+    chk.rule("P10", "after the white-space normalisation every path to a handler call has excluded a first byte of '#' and NUL (comments and empty lines are delivered to nobody)")
+    chk.count("handler_calls_after_normalisation", R.check_comment_filter(chk, u, "P10"), floor=0)
     np6 = R.check_push_initialises(chk, prog, u, "P6")
     chk.count("entry_taking_functions", np6, floor=3)
     diags = facts.clang_diagnostics(warn_flags=["-Wuninitialized", "-Wsometimes-uninitialized"], units=["conf.c"])
